@@ -158,7 +158,7 @@ def _get_spans(case):
             ok = drv().ask("C03.valid_spans", offs=offs, box=box, spans=spans)["valid"]
             if not ok:
                 return {"mismatch": True, "box": box, "chunksize": cs, "impl_spans": spans, "offs": offs,
-                        "note": "spans are not a chain of consecutive row ranges covering every non-empty row of the box"}
+                        "note": "spans are not a chain of consecutive row ranges such that the rows of the box before and after it are empty"}
     return None
 
 
